@@ -144,6 +144,52 @@ func Harness_C32_ModifyNamespace() {
 	vs.Cover("C32/refused")
 }
 
+//verif:harness prop=C32 sched=symbolic:1 noreplay=1 bounds="(engine-only: schedules cannot be forced natively) the same over 2 proxies with every interleaving of the per-proxy worker goroutines at their synchronisation operations (channel send, WaitGroup) with at most one preemption; every proxy's prepare and commit scripted to succeed or to fail on every retry (a timeout is a failure), in every combination; store and proxies are models"
+//verif:mock (*github.com/XiaoMi/Gaea/models.Namespace).Encrypt vhC32Encrypt
+//verif:mock github.com/XiaoMi/Gaea/cc/service.checkForDuplicateUsernameAndPassword vhC32Dup
+//verif:mock github.com/XiaoMi/Gaea/models.NewClient vhC32NewClient
+//verif:mock github.com/XiaoMi/Gaea/models.NewStore vhC32NewStore
+//verif:mock (*github.com/XiaoMi/Gaea/models.Store).Close vhC32Close
+//verif:mock (*github.com/XiaoMi/Gaea/models.Store).LoadNamespace vhC32Load
+//verif:mock (*github.com/XiaoMi/Gaea/models.Store).UpdateNamespace vhC32Update
+//verif:mock (*github.com/XiaoMi/Gaea/models.Store).DelNamespace vhC32Del
+//verif:mock (*github.com/XiaoMi/Gaea/models.Store).ListProxyMonitorMetrics vhC32List
+//verif:mock github.com/XiaoMi/Gaea/cc/proxy.PrepareConfig vhC32Prepare
+//verif:mock github.com/XiaoMi/Gaea/cc/proxy.CommitConfig vhC32Commit
+func Harness_C32_ModifyNamespaceInterleaved() {
+	n := 2
+	vhC32Store = map[string]*models.Namespace{"ns": vhC32Namespace("100")}
+	vhC32Proxies = map[string]*vhC32Proxy{}
+	vhC32Order = nil
+	anyPrepareFails, anyCommitFails, allCommitFail := false, false, true
+	for i := 0; i < n; i++ {
+		h := []string{"a", "b", "c"}[i]
+		p := &vhC32Proxy{running: "100"}
+		p.prepareFails = vs.Choice("prepareFails", 2) == 1
+		p.commitFails = vs.Choice("commitFails", 2) == 1
+		anyPrepareFails = anyPrepareFails || p.prepareFails
+		anyCommitFails = anyCommitFails || p.commitFails
+		allCommitFail = allCommitFail && p.commitFails
+		vhC32Proxies[h+":1"] = p
+		vhC32Order = append(vhC32Order, h)
+	}
+	vs.TagB("commitFailsOnSomeButNotAll", !anyPrepareFails && anyCommitFails && !allCommitFail)
+	err := ModifyNamespace(vhC32Namespace("200"), &models.CCConfig{}, "")
+	if err == nil {
+		vs.Assert(vhC32Store["ns"] != nil && vhC32Store["ns"].SlowSQLTime == "200", "C32/success-means-the-store-holds-the-new-configuration")
+		for _, p := range vhC32Proxies {
+			vs.Assert(p.running == "200", "C32/success-means-every-proxy-runs-the-new-configuration")
+		}
+		vs.Cover("C32/changed")
+		return
+	}
+	vs.Assert(vhC32Store["ns"] != nil && vhC32Store["ns"].SlowSQLTime == "100", "C32/failure-leaves-the-stored-configuration-unchanged")
+	for _, p := range vhC32Proxies {
+		vs.Assert(p.running == "100", "C32/failure-leaves-every-proxy-on-the-previous-configuration")
+	}
+	vs.Cover("C32/refused")
+}
+
 //verif:harness prop=C32 bounds="DelNamespace over 1..3 registered proxies, each proxy's delete call scripted to succeed or fail"
 //verif:mock github.com/XiaoMi/Gaea/models.NewClient vhC32NewClient
 //verif:mock github.com/XiaoMi/Gaea/models.NewStore vhC32NewStore
